@@ -22,8 +22,8 @@ import traceback
 ROOT = os.path.dirname(os.path.dirname(os.path.abspath(__file__)))
 REPO = os.environ.get("VERIF_REPO", "/repo")
 BUILD = os.path.join(ROOT, "build")
-EVID = os.path.join(ROOT, "evidence")
-REPLAYS = os.path.join(ROOT, "replays")
+EVID = os.environ.get("VERIF_EVID", os.path.join(ROOT, "evidence"))
+REPLAYS = os.environ.get("VERIF_REPLAYS", os.path.join(ROOT, "replays"))
 NCPU = int(os.environ.get("VERIF_JOBS", "16"))
 GUARD = "KJN_LBZIP2_VERIF"
 
@@ -90,7 +90,7 @@ def _tree_hash(extra):
                 h.update(f.read())
     rtdir = os.path.join(ROOT, "rt")
     for fn in sorted(os.listdir(rtdir)):
-        if fn.endswith((".c", ".h")):
+        if fn == "verif_rt.c":
             h.update(fn.encode())
             with open(os.path.join(rtdir, fn), "rb") as f:
                 h.update(f.read())
@@ -244,6 +244,70 @@ def run(argv, stdin=None, env=None, timeout=120, cwd=None, stdin_file=None,
             fin.close()
         if fout:
             fout.close()
+
+
+def run_fed(argv, data, frags, env=None, timeout=180, stdout_file=None, cwd=None):
+    """Run argv feeding `data` to its stdin through a pipe in fragments.
+    frags: list of (nbytes, pause_ms); the list is cycled; the pipe is closed
+    at the end.  Returns Res."""
+    import threading
+    e = dict(BASE_ENV)
+    if env:
+        e.update(env)
+    t = time.time()
+    fout = open(stdout_file, "wb") if stdout_file else None
+    p = subprocess.Popen(argv, stdin=subprocess.PIPE, stdout=fout if fout else subprocess.PIPE,
+                         stderr=subprocess.PIPE, env=e, cwd=cwd, start_new_session=True)
+    outbuf, errbuf = [], []
+
+    def feeder():
+        pos = 0
+        i = 0
+        try:
+            while pos < len(data):
+                n, pause = frags[i % len(frags)] if frags else (len(data), 0)
+                i += 1
+                n = max(1, n)
+                p.stdin.write(data[pos:pos + n])
+                p.stdin.flush()
+                pos += n
+                if pause:
+                    time.sleep(pause / 1000.0)
+        except (BrokenPipeError, OSError, ValueError):
+            pass
+        finally:
+            try:
+                p.stdin.close()
+            except OSError:
+                pass
+
+    def reader(f, buf):
+        try:
+            buf.append(f.read())
+        except (OSError, ValueError):
+            pass
+
+    ths = [threading.Thread(target=feeder, daemon=True),
+           threading.Thread(target=reader, args=(p.stderr, errbuf), daemon=True)]
+    if not fout:
+        ths.append(threading.Thread(target=reader, args=(p.stdout, outbuf), daemon=True))
+    for th in ths:
+        th.start()
+    to = False
+    try:
+        p.wait(timeout=timeout)
+    except subprocess.TimeoutExpired:
+        to = True
+        try:
+            os.killpg(p.pid, signal.SIGKILL)
+        except ProcessLookupError:
+            pass
+        p.wait()
+    for th in ths:
+        th.join(timeout=10)
+    if fout:
+        fout.close()
+    return Res(p.returncode, b"".join(outbuf), b"".join(errbuf), to, time.time() - t)
 
 
 class TempDir:
